@@ -12,6 +12,23 @@ import (
 // Dump prints the facts the analyses see for a function: spec is
 // "pkg:Func" or "pkg:Type.Method". Debugging aid, not part of any check.
 func Dump(p *core.Prog, spec string) {
+	if spec == "model" {
+		for _, rel := range protoRels {
+			pr := ExtractProtocol(p, rel)
+			fmt.Println("=====", rel, "party:", pr.Party)
+			t := pr.Table()
+			for _, k := range []string{"contents", "rounds", "arrays", "errors"} {
+				fmt.Println(" ", k+":")
+				switch v := t[k].(type) {
+				case []string:
+					for _, s := range v {
+						fmt.Println("    ", s)
+					}
+				}
+			}
+		}
+		return
+	}
 	if spec == "effects" {
 		e := core.NewEffects(p)
 		var rels []string
